@@ -304,14 +304,14 @@ def run_variants(ctx: Ctx, cases):
         ctx.evaluations += 1
         cw = {"stream": "variants", "case": c}
         nv = len(c["mcs"])
-        cvs = [{"mc": mc, "data": c["data"], "deviation": False, "rescale": False} for mc in c["mcs"]]
+        cvs = ks.variant_subcases(c)
         if any(ks.e2e_batch(cv).condS() > 1e8 for cv in cvs):
             ctx.count("variants:degenerate_joint_distribution_skipped"); continue
         try:
             m, db, span, out, info = ks.run_variants(c)
         except Exception as e:
             fail(ctx, "variants-raises", cw, repr(e)[:300]); continue
-        ctx.count(f"variants:nv={nv}")
+        ctx.count(f"variants:nv={nv}"); ctx.count(f"variants:deviation={bool(c.get('deviation'))}")
         ctx.nontriv(("variants", json.dumps(c["mcs"], sort_keys=True), json.dumps(c["data"]["mask"])))
         if i < 1:
             ctx.sample({"stream": "variants", "source": ks.model_source(c["mcs"][0], params=True),
@@ -328,30 +328,51 @@ def run_sequences(ctx: Ctx, cases):
         ctx.evaluations += 1
         cw = {"stream": "sequence", "case": c}
         try:
-            m, db, span, out, info = ks.run_sequence(c)
+            m, results = ks.run_sequence(c)
         except np.linalg.LinAlgError:
             ctx.count("sequence:singular_skipped"); continue
         except Exception as e:
             if c["mc"].get("fwd") and ("solv" in repr(e).lower() or "stab" in repr(e).lower() or "saddle" in repr(e).lower()):
                 ctx.count("sequence:no_stable_solution_skipped"); continue
             fail(ctx, "sequence-raises", cw, repr(e)[:300]); continue
-        F = out.get("predict_mse_obs") if hasattr(out, "get") else None
         try:
-            conds = [np.linalg.cond(f) for f in out["predict_mse_obs"][0] if f is not None and np.size(f)]
+            conds = [np.linalg.cond(f) for r in results for f in r[2]["predict_mse_obs"][0] if f is not None and np.size(f)]
             if conds and max(conds) > ks.COND_MAX:
                 ctx.count("sequence:ill_conditioned_skipped"); continue
         except Exception:
             pass
-        ctx.count(f"sequence:ops={'>'.join(c['ops'])}"); ctx.count(f"sequence:forward={c['mc'].get('fwd') is not None}")
-        ctx.nontriv(("sequence", json.dumps(c["mc"], sort_keys=True), json.dumps(c["ant"]), tuple(c["ops"])))
+        hs = [h for _, h in c["ops"]]
+        ctx.count(f"sequence:ops={'>'.join(op for op, _ in c['ops'])}"); ctx.count(f"sequence:forward={c['mc'].get('fwd') is not None}")
+        ctx.count("sequence:horizons=" + ("single" if len(hs) == 1 else ("growing" if hs == sorted(hs) and hs[0] < hs[-1] else "other")))
+        ctx.nontriv(("sequence", json.dumps(c["mc"], sort_keys=True), json.dumps(c["ant"]), json.dumps(c["ops"])))
         if i < 1:
             ctx.sample({"stream": "sequence", "source": ks.model_source(c["mc"]), "ops": c["ops"], "anticipated": c["ant"]})
-        sm = out["smooth_med"]
-        for j in range(len(c["mc"]["std_e"])):
-            got = np.nan_to_num(ks.series_values(sm, f"ant_e{j}", span))
-            if not iclose(got, [r[j] for r in c["ant"]], 1e-12):
-                fail(ctx, "sequence-anticipated-values", cw, f"ant_e{j} in smooth_med {got.tolist()} != input")
-        check_identities(ctx, cw, c, m, db, span, sm, "sequence", with_ant=True)
+        # every filter call of the sequence is checked, each with the anticipated shocks it was given
+        for k, (db, span, out, info, ant) in enumerate(results):
+            sm = out["smooth_med"]
+            cwk = dict(cw, filter_call=k)
+            for j in range(len(c["mc"]["std_e"])):
+                got = np.nan_to_num(ks.series_values(sm, f"ant_e{j}", span))
+                if not iclose(got, [r[j] for r in ant], 1e-12):
+                    fail(ctx, "sequence-anticipated-values", cwk, f"ant_e{j} in smooth_med {got.tolist()} != input")
+            check_identities(ctx, cwk, c, m, db, span, sm, "sequence", with_ant=True)
+        # history independence: the last filter call must return what the same call returns on a freshly solved model object
+        if len(c["ops"]) > 1 and results:
+            db, span, out, info, ant = results[-1]
+            try:
+                fresh = ks.build_model(c["mc"])
+                out_f, info_f = fresh.kalman_filter(db, span, return_info=True, shocks_from_data=True)
+                names = [f"x{j}" for j in range(len(c["mc"]["logx"]))] + (["f"] if c["mc"].get("fwd") else []) \
+                    + [f"e{j}" for j in range(len(c["mc"]["std_e"]))] + [f"w{j}" for j in range(len(c["mc"]["std_w"]))]
+                for step in ("predict_med", "update_med", "smooth_med"):
+                    for nm in names:
+                        a = ks.series_values(out[step], nm, span); b = ks.series_values(out_f[step], nm, span)
+                        if not iclose(a, b, 1e-9):
+                            fail(ctx, "sequence-depends-on-history", cw, f"{step}[{nm}] after {c['ops'][:-1]}: {a.tolist()} but {b.tolist()} on a fresh model")
+                if not iclose([info["neg_log_likelihood"]], [info_f["neg_log_likelihood"]], 1e-9):
+                    fail(ctx, "sequence-depends-on-history", cw, f"likelihood {info['neg_log_likelihood']!r} vs {info_f['neg_log_likelihood']!r} on a fresh model")
+            except Exception as e:
+                fail(ctx, "sequence-depends-on-history", cw, "fresh-model run raises " + repr(e)[:200])
 
 
 def run_e2e(ctx: Ctx, cases):
